@@ -1,0 +1,14 @@
+//go:build verif
+
+// Export shims for the verification harness under /verif (build tag "verif" only), property C17.
+// Add-only: no existing line is changed.
+package core
+
+import (
+	route "github.com/envoyproxy/go-control-plane/envoy/config/route/v3"
+)
+
+// VerifC17MergeAllVirtualHosts exposes mergeAllVirtualHosts (ranges over the port map).
+func VerifC17MergeAllVirtualHosts(vHostPortMap map[int][]*route.VirtualHost) []*route.VirtualHost {
+	return mergeAllVirtualHosts(vHostPortMap)
+}
